@@ -123,8 +123,10 @@ def run(R):
               "and far outside (supporting hyperplane from a rationalised qhull normal, verified by sepCert); unbounded sources with a "
               "full-dimensional cone also get targets just outside / far outside every sampled facet of the cone, at the apex and along the "
               "facet (exact rational facet normal, sepCert against the apex value); adaptation matrices with negative entries (perturbed "
-              "identity, opponent coding) -- every 10th system is unbounded with such a matrix, half of the other unbounded ones too; plain, relative and "
-              "L1-normalised membership via in_hull_from_A and ReceptorEstimator.in_hull / in_gamut, batched and as a single 1-D target. "
+              "identity, opponent coding) -- every 10th system is unbounded with such a matrix, half of the other unbounded ones too; unbounded systems also get four "
+              "'interior_bright' targets, captures of in-bound intensities 2^6..2^17 units above the lower bounds (all or some of the sources bright); "
+              "plain, relative and "
+              "L1-normalised membership via in_hull_from_A and ReceptorEstimator.in_hull / in_gamut, batched and as a single 1-D target (any one of the targets). "
               "Whole-number A / lb / ub variants; A, filters, lb, ub, K, baseline and targets are handed over as float or (whole numbers) "
               "integer arrays, Fortran-ordered, strided views or lists (as_given); the model gets the values. Every call is checked for the "
               "frame condition (arguments and registered estimator state unchanged by a query). Histories, bounded and unbounded: the same "
@@ -158,13 +160,25 @@ def run(R):
         def predictF(x):
             return [sum(a * xv for a, xv in zip(row, x)) + b0 for row, b0 in zip(Ap, bp)]
         # interior and near-boundary-inside (intensity space, exact dyadic)
-        for kind, tset in (("interior", None), ("interior", None), ("near_in", EPS)):
-            if tset is None:
+        # unbounded sources have no brightest stimulus: besides intensities of the order of the lower bounds / of one unit, the
+        # in-bound intensities of four more targets are 2^6 .. 2^17 units (an LED's dynamic range of two to five decades above
+        # its dimmest setting); their captures are that much larger than the unit-intensity captures, and still in gamut.
+        # (own stream: the other targets of a system are the same with and without them)
+        rngb = R.rng(5, int(k[1:]))
+        bright = [] if finite else [("interior_bright", int(e_)) for e_ in rngb.integers(6, 18, size=4)]
+        for kind, tset in [("interior", None), ("interior", None), ("near_in", EPS)] + bright:
+            if kind == "interior_bright":
+                tv = [F(v) for v in dyadic(rngb, 0.125, 0.875, 3, size=ns)]
+                if rngb.integers(3) == 0:
+                    # only some of the sources are bright, the others stay near their lower bound
+                    dim = rngb.random(ns) < 0.5
+                    tv = [tt * F(2) ** (-tset) if d_ else tt for tt, d_ in zip(tv, dim)]
+            elif tset is None:
                 tv = [F(v) for v in dyadic(rng, 0.125, 0.875, 3, size=ns)]
             else:
                 tv = [F(EPS) if rng.integers(2) else F(1 - EPS) for _ in range(ns)]
                 tv[int(rng.integers(ns))] = F(0.5)
-            span = [(u - l) if u is not None else F(4) for l, u in zip(lbF, ubF)]
+            span = [(u - l) if u is not None else (F(2) ** tset if kind == "interior_bright" else F(4)) for l, u in zip(lbF, ubF)]
             x = [l + tt * s for l, tt, s in zip(lbF, tv, span)]
             b = predictF(x)
             bf, be = exact_float_vec(b)
@@ -269,6 +283,7 @@ def run(R):
         drain()
         # every query goes through common.call: arguments and the registered state of the estimator must be unchanged by it
         single = None
+        isingle = int(rngb.integers(len(targets)))     # which target is (sometimes) also asked as one 1-D vector
         if via == "estimator":
             st, e0 = call(mk_est)
             out = e0
@@ -277,11 +292,11 @@ def run(R):
                 R.count("query:" + meth)
                 st, out = call(getattr(e0, meth), Bg)
                 if st == "ok" and rng.integers(3) == 0:
-                    single = call(e0.in_hull, as_given(rng, B[0].copy(), R, "b", kinds=("same", "strided", "list")))   # one 1-D target
+                    single = call(e0.in_hull, as_given(rng, B[isingle].copy(), R, "b", kinds=("same", "strided", "list")))   # one 1-D target
         else:
             st, out = by_function(Bg)
             if st == "ok" and rng.integers(3) == 0:
-                single = by_function(as_given(rng, B[0].copy(), R, "b", kinds=("same", "strided", "list")))
+                single = by_function(as_given(rng, B[isingle].copy(), R, "b", kinds=("same", "strided", "list")))
         paths = sorted({e["path"] for e in drain() if e["event"] == "in_hull"})
         # chromatic membership of the same in-box captures (and of positive multiples)
         stn, outn = (None, None)
@@ -378,11 +393,11 @@ def run(R):
                 R.driver.ask(rid, "inhull", nf, ms(P), vs(ct[1]), vs(t_["be"]))
             elif ct[0] == "sep":
                 R.driver.ask(rid, "sep", ms(P), vs(ct[1]), rs(ct[2]), vs(t_["be"]))
-        jobs.append((k, S, targets, via, st, out, paths, fulldim, finite, ext, stn, outn, Bn, hist, single, npaths,
+        jobs.append((k, S, targets, via, st, out, paths, fulldim, finite, ext, stn, outn, Bn, hist, (single, isingle), npaths,
                      {n_: ("list" if isinstance(v, list) else ("None" if v is None else "%s%s" % (v.dtype, "" if v.flags["C_CONTIGUOUS"] else (" F-order" if v.flags["F_CONTIGUOUS"] else " strided"))))
                       for n_, v in G.items()}))
     R.driver.run()
-    for k, S, targets, via, st, out, paths, fulldim, finite, ext, stn, outn, Bn, hist, single, npaths, given in jobs:
+    for k, S, targets, via, st, out, paths, fulldim, finite, ext, stn, outn, Bn, hist, (single, isingle), npaths, given in jobs:
         c = dict(k=k, via=via, nf=S["nf"], ns=S["ns"], A=S["A"], K=S["K"], K_kind=S["K_kind"], baseline=S["baseline"], baseline_kind=S["baseline_kind"],
                  lb=S["lb"], ub=S["ub"], given_as=given, full_dimensional=bool(fulldim), paths=paths,
                  targets=[dict(kind=t_["kind"], b=t_["b"], expect=t_["expect"]) for t_ in targets])
@@ -444,7 +459,7 @@ def run(R):
             elif np.size(single[1]) != 1:
                 R.failB(dict(c, impl=single[1]), "membership of a single (1-D) target is not one answer", sigbase + ":single-target:shape")
             else:
-                judge([bool(np.asarray(single[1]).ravel()[0])], [0], " when asked as a single 1-D target", dict(query="single 1-D target"))
+                judge([bool(np.asarray(single[1]).ravel()[0])], [isingle], " when asked as a single 1-D target", dict(query="single 1-D target"))
         R.count("history:%s" % hist["via"]); R.count("history:first=%s" % hist["first"]); R.count("history:then=%s" % hist["step"])
         if not finite:
             R.count("history:unbounded")
